@@ -24,7 +24,7 @@ func init() {
 			"C02.alpha: every literal the formatter can emit for a position, in both letter cases, is a member of that position's capture-group language of roman.pattern (so Valid and the parser accept every formatted numeral). " +
 			"C02.lower: toLower evaluated on a one-element slice for each class of a partition of all byte values (the seven letters as themselves, the gaps as an opaque byte known to lie in the gap; that elements are treated alike is the shape of its range loop): each letter becomes its own ASCII lower case, every other byte is unchanged; it is applied only when FormatLowerCase is set, to the appended bytes. C02.value: the parser's value function, extracted as a decision table, maps every literal the formatter can emit (both letter cases) back to its digit. " +
 			"C02.flags: the eight base Format flags are distinct single bits and FormatLong4x/FormatLong9x/FormatLong are exactly the documented unions. C02.zero: n = 0 ↦ buffer unchanged; empty input ↦ (0, nil) unless RuleDisableEmptyAsZero. S-DELEG with verb table L, l, R, r, default. " +
-			"C02.valid: Valid and DefaultParser share the guard and match the same pattern on the whole input, for every input type (C10.same under this property). C02.buffer: the formatted numeral is appended to the caller's buffer and shares no storage with anything a later call can write (C16's append-only and buffer-independence rules on roman.DefaultFormatter). C02.sum: as C10.groups.",
+			"C02.valid: Valid and DefaultParser share the guard and match the same pattern on the whole input, for every input type (C10.same under this property). C02.buffer: the formatted numeral is appended to the caller's buffer and shares no storage with anything a later call can write (C16's append-only and buffer-independence rules on roman.DefaultFormatter). C02.sum: as C10.groups. C02.decomp single path: apart from the n = 0 exit every return of the formatter comes after all four unconditional writes into one buffer (the M loop entered from a block that dominates the hundreds write), returns that buffer's bytes with a nil error, and the buffer is only appended to. The regexp's skeleton is ^<1><2><3><4>$ (a matched text is the concatenation of its four captures).",
 		NotDecided:  []string{"the composition over whole numbers beyond its shape (C02.sum: the parser returns len(capture 1)×1000 + the three group values, every sum and product 64 bits wide on the analysed target)", "which n fit within MaxInputLength (128 bytes)"},
 		Assumptions: []string{"bits.Div64(0, x, c) returns quotient and remainder of x / c"},
 		Technique:   "constant-table reading + decision-table extraction + DFA membership + dataflow over go/ssa",
@@ -756,13 +756,15 @@ func ruleC02Zero(e *Env) {
 	}
 	for _, set := range []bool{false, true} {
 		construct := fmt.Sprintf("empty input, RuleDisableEmptyAsZero=%v", set)
-		r := int64(0)
-		if set {
-			r = bit
+		// the rule value: the flag's bit set or clear, every other bit unknown — "the rule forbids it" is the bit,
+		// whatever else the rule value carries
+		rv := pred.SymBits("r", pred.WordBits, true)
+		if bi := bitIndex(bit); bi >= 0 && bi < len(rv.B) {
+			rv.B[bi] = pred.Bit{K: map[bool]byte{true: '1', false: '0'}[set]}
 		}
 		o := &ordOracle{ord: map[string]int{"len(input)|0": 0}}
 		ev := &pred.Evaluator{Prog: e.P.SSA, GlobalInit: e.globalTables(), Oracle: o}
-		out, err := ev.Eval(dp, []pred.Val{pred.Sym{Name: "input"}, pred.Const{V: constant.MakeInt64(r)}})
+		out, err := ev.Eval(dp, []pred.Val{pred.Sym{Name: "input"}, rv})
 		if err != nil {
 			e.S.Unk(rule, flow.FnName(dp), construct, err.Error(), e.Pos(dp))
 			continue
